@@ -3,6 +3,8 @@ import KoordVerif.Proofs.C11Loop
 import KoordVerif.Proofs.C11Order
 import KoordVerif.Proofs.C11Sort
 import KoordVerif.Proofs.C11SortBE
+import KoordVerif.Proofs.C11ExtScan
+import KoordVerif.Proofs.C11ExtRounds
 /-
 C11 — property theorems (DESIGN.md §4 C11).
 
@@ -122,6 +124,17 @@ example :
        { target := 1, toRelease := [(0, 12)], fn := [(0, 0)], pods := [⟨2, [6]⟩, ⟨3, [9]⟩] }]
     ((killAndEvict (fun p => p = 1) [false, true, true] tasks).logRev.reverse.map (fun ev => (ev.task, ev.e.pod, ev.kind)))
       = [(0, 0, .fail), (0, 1, .pending), (0, 2, .ok), (1, 3, .ok)] := by decide
+
+/-! ### A.7 no_candidate_skipped — when a task's turn is over, its target is covered by the credited
+    releases, or every pod of its published list has been credited (evicted now / still terminating) or was
+    handed to `Evict` by this task and the call failed.  Together with A.2 (order) and A.3 (stop): the scan
+    takes the candidates one by one in published order until the target is covered. -/
+theorem no_candidate_skipped (isEv : Nat → Bool) (script : List Bool) (tasks : List Task) (ti : Nat) (t : Task)
+    (ht : tasks[ti]? = some t) :
+    ∃ newer older, (killAndEvict isEv script tasks).logRev = newer ++ older ∧
+      (Met (aggOf tasks) t older ∨
+        ∀ e ∈ t.pods, e.pod ∈ creditedPods older ∨ (⟨ti, e, .fail⟩ : Ev) ∈ older) :=
+  kill_turns isEv script tasks ti t ht
 
 /-! ## Part B — who may be a victim, and in which order (memoryevict / cpuevict selection) -/
 
@@ -255,5 +268,181 @@ example :
         used := 1000, request := 1, batchReq := 0 }
     (selectPrio 5999 false [mk 0 5500 1 .absent, mk 1 9500 0 .absent, mk 2 5500 0 .others, mk 3 5600 (-1) .lists]).map (·.pod.id)
       = [3, 0] := by decide
+
+/-! ## Part C — several rounds against the real executor (Evictor + DefaultEvictionExecutor)
+
+`runRound x r` is KillAndEvictPods with the stateful executor `x` (evicted-cache with TTL, OnlyEvictByAPI,
+started or not) at time `r.now`; `execAfter x0 pre` is the executor after the rounds `pre`;
+`traceOf x0 pre r` is the trace (newest first) of round `r` run after `pre`.  All statements hold for every
+history of rounds, every API outcome script and both OnlyEvictByAPI settings. -/
+
+/-! ### C.0 refinement — inside one round the real executor behaves like Part A's scripted executor with
+    the `IsPodEvicted` answers frozen at the start of the round (a pod recorded during the round is already
+    in `evictedPodsMp`, which is consulted first).  Hence every Part A theorem holds for every round. -/
+theorem round_refines_frozen_executor (x : Exec) (r : Round) :
+    (runRound x r).st = killAndEvict (fun p => x.isEvicted r.now p) (x.scriptFor r.script) r.tasks :=
+  runRound_refines x r
+
+theorem rounds_stop_when_met (x0 : Exec) (pre : List Round) (r : Round)
+    (newer : List Ev) (ev : Ev) (older : List Ev) (h : traceOf x0 pre r = newer ++ ev :: older) :
+    ∃ t, r.tasks[ev.task]? = some t ∧ ¬ Met (aggOf r.tasks) t older := by
+  unfold traceOf at h; rw [runRound_refines] at h
+  exact stop_when_met _ _ _ newer ev older h
+
+theorem rounds_no_double_within (x0 : Exec) (pre : List Round) (r : Round)
+    (newer : List Ev) (ev : Ev) (older : List Ev) (h : traceOf x0 pre r = newer ++ ev :: older) :
+    ev.e.pod ∉ creditedPods older := by
+  unfold traceOf at h; rw [runRound_refines] at h
+  exact no_double _ _ _ newer ev older h
+
+theorem rounds_release_is_credit (x0 : Exec) (pre : List Round) (r : Round) (k : Key) :
+    get (runRound (execAfter x0 pre) r).st.released k = credit (aggOf r.tasks) (traceOf x0 pre r) k := by
+  unfold traceOf; rw [runRound_refines]
+  exact terminating_counted _ _ _ k
+
+/-! ### C.1 a failed call leaves the executor state unchanged; only a successful API call is recorded,
+    and it is reported as evicted exactly until the TTL has passed. -/
+theorem failed_call_leaves_state (x : Exec) (now : Int) (p : Nat) : (x.evict now p false).2.2 = x := by
+  unfold Exec.evict Exec.evictIfNot
+  by_cases h1 : x.onlyAPI = true <;> by_cases h2 : cacheGet x.cache now p = true <;> simp [h1, h2]
+
+theorem round_without_success_leaves_state (x : Exec) (r : Round)
+    (h : ∀ ev ∈ (runRound x r).st.logRev, ev.kind ≠ .ok) : (runRound x r).x = x :=
+  (runRound_inv x r).same (Or.inr (Or.inr h))
+
+theorem kill_mode_or_unstarted_never_records (x : Exec) (r : Round) (h : x.onlyAPI = false ∨ x.started = false) :
+    (runRound x r).x = x := by
+  apply (runRound_inv x r).same
+  rcases h with h | h
+  · exact Or.inl h
+  · exact Or.inr (Or.inl h)
+
+theorem success_recorded_until_ttl (x : Exec) (now now' : Int) (p : Nat)
+    (hapi : x.onlyAPI = true) (hst : x.started = true) (hmiss : x.isEvicted now p = false) :
+    (x.evict now p true).1 = true ∧
+    ((x.evict now p true).2.2.isEvicted now' p = true ↔ now' ≤ now + x.ttl) := by
+  unfold Exec.isEvicted at hmiss
+  have : x.evict now p true = (true, true, x.record now p) := by
+    simp [Exec.evict, Exec.evictIfNot, hapi, hmiss]
+  rw [this]
+  refine ⟨rfl, ?_⟩
+  simp only [Exec.isEvicted, Exec.record, hst, if_true, cacheGet, cacheLookup_set]
+  simp <;> omega
+
+/-! ### C.2 failed-eviction-credited — a pod is credited as pending release only if an eviction API call
+    for it SUCCEEDED in an earlier round not longer ago than the TTL (never after a failed call). -/
+theorem pending_only_after_success (x0 : Exec) (h0 : x0.cache = []) (pre : List Round) (r : Round)
+    (ev : Ev) (hev : ev ∈ traceOf x0 pre r) (hk : ev.kind = .pending) :
+    ∃ pre1 r1 post1, pre = pre1 ++ r1 :: post1 ∧ okIn (traceOf x0 pre1 r1) ev.e.pod ∧
+      r.now ≤ r1.now + x0.ttl := by
+  obtain ⟨newer, older, hsplit⟩ := List.append_of_mem hev
+  have hsplit' := hsplit
+  unfold traceOf at hsplit'; rw [runRound_refines] at hsplit'
+  have hc := (evict_only_not_yet_evicted _ _ _ newer ev older hsplit').mp hk
+  -- the pod is in the cache and not expired
+  unfold cacheGet at hc
+  cases hl : cacheLookup (execAfter x0 pre).cache ev.e.pod with
+  | none => simp [hl] at hc
+  | some exp =>
+    simp [hl] at hc
+    obtain ⟨pre1, r1, post1, e1, e2, e3⟩ := cache_sound x0 h0 pre ev.e.pod exp hl
+    exact ⟨pre1, r1, post1, e1, e2, by omega⟩
+
+/-! ### C.3 evicted-twice-across-rounds — with the executor started and OnlyEvictByAPI, a pod whose
+    eviction succeeded in round `r1` is not handed to `Evict` again in any later round within the TTL
+    (rounds in between not running before `r1`): every later event for it is a pending credit. -/
+theorem no_double_across_rounds (x0 : Exec) (hapi : x0.onlyAPI = true) (hst : x0.started = true)
+    (pre1 : List Round) (r1 : Round) (post1 : List Round) (r : Round) (p : Nat)
+    (hok : okIn (traceOf x0 pre1 r1) p)
+    (hmono : ∀ r' ∈ post1, r1.now ≤ r'.now) (httl : r.now ≤ r1.now + x0.ttl)
+    (ev : Ev) (hev : ev ∈ traceOf x0 (pre1 ++ r1 :: post1) r) (hp : ev.e.pod = p) :
+    ev.kind = .pending := by
+  obtain ⟨newer, older, hsplit⟩ := List.append_of_mem hev
+  unfold traceOf at hsplit; rw [runRound_refines] at hsplit
+  apply (evict_only_not_yet_evicted _ _ _ newer ev older hsplit).mpr
+  -- the cache still holds the pod with an expiration ≥ r1.now + ttl
+  have hcfg := execAfter_cfg x0 pre1
+  have inv := runRound_inv (execAfter x0 pre1) r1
+  have e0 : execAfter x0 (pre1 ++ r1 :: post1) = execAfter (runRound (execAfter x0 pre1) r1).x post1 := by
+    have : pre1 ++ r1 :: post1 = (pre1 ++ [r1]) ++ post1 := by simp
+    rw [this, execAfter_append, execAfter_snoc]
+  have hkeep := cache_keeps (runRound (execAfter x0 pre1) r1).x p (r1.now + x0.ttl) post1
+    (by intro r' hr'; rw [inv.ttl, hcfg.2.2]; have := hmono r' hr'; omega)
+    (by
+      refine ⟨r1.now + x0.ttl, ?_, Int.le_refl _⟩
+      rw [inv.look p, hcfg.1, hcfg.2.1, hcfg.2.2]
+      have : okIn (runRound (execAfter x0 pre1) r1).st.logRev p := hok
+      simp [hapi, hst, this])
+  obtain ⟨exp, h1, h2⟩ := hkeep
+  rw [hp, e0]
+  unfold cacheGet
+  rw [h1]
+  simp
+  omega
+
+/-! ### C.4 failed-eviction-not-retried — a pod for which no eviction call has succeeded so far (in
+    particular one whose calls all FAILED) is never skipped: in every round and for every task that lists
+    it, when the task's turn is over the target is covered, or the pod has been handed to `Evict` in this
+    round (a successful call by this or an earlier task, or a failed call by this task). -/
+theorem failed_pod_is_retried (x0 : Exec) (h0 : x0.cache = []) (pre : List Round) (r : Round) (p : Nat)
+    (hnever : ∀ pre1 r1 post1, pre = pre1 ++ r1 :: post1 → ¬ okIn (traceOf x0 pre1 r1) p)
+    (ti : Nat) (t : Task) (ht : r.tasks[ti]? = some t) (e : Entry) (he : e ∈ t.pods) (hp : e.pod = p) :
+    ∃ newer older, traceOf x0 pre r = newer ++ older ∧
+      (Met (aggOf r.tasks) t older ∨ ∃ ev ∈ older, ev.e.pod = p ∧ (ev.kind = .ok ∨ (ev.kind = .fail ∧ ev.task = ti))) := by
+  unfold traceOf; rw [runRound_refines]
+  obtain ⟨newer, older, hsplit, hdone⟩ := kill_turns (fun q => cacheGet (execAfter x0 pre).cache r.now q)
+    ((execAfter x0 pre).scriptFor r.script) r.tasks ti t ht
+  refine ⟨newer, older, hsplit, ?_⟩
+  rcases hdone with h | h
+  · exact Or.inl h
+  · right
+    rcases h e he with h' | h'
+    · -- credited: by a successful call (a pending credit is impossible: the pod is not in the cache)
+      have : ∀ l : List Ev, (∀ ev ∈ l, ev.e.pod = p → ev.kind ≠ .pending) → p ∈ creditedPods l →
+          ∃ ev ∈ l, ev.e.pod = p ∧ ev.kind = .ok := by
+        intro l
+        induction l with
+        | nil => intro _ h; simp [creditedPods] at h
+        | cons a l ih =>
+          intro hnp hc
+          unfold creditedPods at hc
+          have hnp' : ∀ ev ∈ l, ev.e.pod = p → ev.kind ≠ .pending := fun ev h => hnp ev (List.mem_cons_of_mem _ h)
+          by_cases hf : a.kind = .fail
+          · rw [if_pos hf] at hc
+            obtain ⟨ev, h1, h2⟩ := ih hnp' hc
+            exact ⟨ev, List.mem_cons_of_mem _ h1, h2⟩
+          · rw [if_neg hf] at hc
+            rcases List.mem_cons.mp hc with h1 | h1
+            · refine ⟨a, List.mem_cons_self .., h1.symm, ?_⟩
+              have := hnp a (List.mem_cons_self ..) h1.symm
+              cases hk : a.kind <;> simp_all
+            · obtain ⟨ev, h2, h3⟩ := ih hnp' h1
+              exact ⟨ev, List.mem_cons_of_mem _ h2, h3⟩
+      have hnopend : ∀ ev ∈ older, ev.e.pod = p → ev.kind ≠ .pending := by
+        intro ev hm hpp hk
+        have hm' : ev ∈ traceOf x0 pre r := by
+          unfold traceOf; rw [runRound_refines, hsplit]; exact List.mem_append_right _ hm
+        obtain ⟨pre1, r1, post1, e1, e2, _⟩ := pending_only_after_success x0 h0 pre r ev hm' hk
+        exact hnever pre1 r1 post1 e1 (hpp ▸ e2)
+      obtain ⟨ev, h1, h2, h3⟩ := this older hnopend (hp ▸ h')
+      exact ⟨ev, h1, h2, Or.inl h3⟩
+    · exact ⟨_, h', hp, Or.inr ⟨rfl, rfl⟩⟩
+
+/-- non-vacuity of Part C: three rounds over pods 0,1 with target 5; round 1: the call for pod 0 FAILS
+    (429), pod 1 is evicted; round 2: pod 0 is retried first (not skipped, nothing credited for it), it
+    succeeds, pod 1 is credited as pending; round 3 (within the TTL): both are pending, no call at all;
+    in a fourth round pod 1's entry (time 0 + 120) has expired, pod 0's (10 + 120) has not. -/
+example :
+    let t : Task := { target := 0, toRelease := [(1, 5)], fn := [(1, 0)], pods := [⟨0, [4]⟩, ⟨1, [3]⟩] }
+    let x0 : Exec := { onlyAPI := true, started := true, ttl := 120, cache := [] }
+    let r1 : Round := { now := 0, script := [false, true], tasks := [t] }
+    let r2 : Round := { now := 10, script := [true], tasks := [t] }
+    let r3 : Round := { now := 20, script := [], tasks := [t] }
+    let r4 : Round := { now := 125, script := [true], tasks := [t] }
+    let show' := fun (l : List Ev) => l.reverse.map (fun ev => (ev.e.pod, ev.kind))
+    show' (traceOf x0 [] r1) = [(0, .fail), (1, .ok)] ∧
+    show' (traceOf x0 [r1] r2) = [(0, .ok), (1, .pending)] ∧
+    show' (traceOf x0 [r1, r2] r3) = [(0, .pending), (1, .pending)] ∧
+    show' (traceOf x0 [r1, r2, r3] r4) = [(0, .pending), (1, .ok)] := by decide
 
 end KoordVerif.C11
